@@ -247,7 +247,34 @@ def _scope(prog):
                             seen.add(h.id)
                             out.append((h, h.params[k]['var']))
                             work.append((h, h.params[k]['var']))
+        # helpers whose returned string is appended: S += capsFormString(form)
+        for i, expr in _appends(g, sd):
+            for part in _flatten(g, expr):
+                pn = g.nodes[part]
+                if pn['k'] != 'call' or pn.get('op'):
+                    continue
+                for h in prog.callee_fns(g, pn):
+                    if h.file != f.file or h.entry is None or h.id in seen or 'QString' not in (pn.get('t') or ''):
+                        continue
+                    hd = _returned_local(h)
+                    if hd is not None:
+                        seen.add(h.id)
+                        out.append((h, hd))
+                        work.append((h, hd))
     return out
+
+
+def _returned_local(h):
+    """decl of the local string every return of h returns, or None"""
+    decls = set()
+    for _, rn in h.returns():
+        if 'e' not in rn:
+            return None
+        v = h.nodes[_strip_conv(h, rn['e'])]
+        if v['k'] != 'var' or v.get('vk') != 'local':
+            return None
+        decls.add(v['decl'])
+    return decls.pop() if len(decls) == 1 else None
 
 
 def _helper_calls(prog, g, sd, scope):
@@ -261,6 +288,15 @@ def _helper_calls(prog, g, sd, scope):
             for h in prog.callee_fns(g, n):
                 if h.id in by_id and h.id != g.id:
                     out[i] = by_id[h.id]
+    # an append whose only piece is the string returned by a scope helper: the helper's pieces land here
+    for i, expr in _appends(g, sd):
+        parts = _flatten(g, expr)
+        if len(parts) == 1:
+            pn = g.nodes[parts[0]]
+            if pn['k'] == 'call' and not pn.get('op'):
+                for h in prog.callee_fns(g, pn):
+                    if h.id in by_id and h.id != g.id and _returned_local(h) == by_id[h.id][1]:
+                        out[i] = by_id[h.id]
     return out
 
 
@@ -401,12 +437,27 @@ def r_cmp(prog, run):
         return
 
     # atoms: comparisons between the same accessor of both parameters
-    def accessor(g, nid):
+    # a comparator that walks a constant table of accessors (member pointers): the loop is unrolled over the table during the exploration
+    tbl = _accessor_table(cmpf)
+    cur_key = [None]
+
+    def accessor(g, nid, depth=0):
         n = g.nodes[_strip_conv(g, nid)]
+        if n['k'] == 'var' and n.get('vk') == 'local' and depth < 3:
+            d0 = g.single_def(n['decl'])
+            if d0 is not None:
+                return accessor(g, d0, depth + 1)
         if n['k'] == 'call' and g.cname(n).startswith(IDENT) and n.get('obj') is not None:
             o = g.nodes[g.skip(n['obj'])]
             if o['k'] == 'var' and o.get('vk') == 'param':
                 return g.cname(n)[len(IDENT):], o['pidx']
+        if n['k'] == 'call' and 'fn' in n and not g.cname(n) and tbl and cur_key[0] is not None:
+            b = g.nodes[g.skip(n['fn'])]
+            if b['k'] == 'bin' and b.get('op') in ('.*', '->*'):
+                o = g.nodes[g.skip(b['l'])]
+                k_ = g.nodes[g.skip(b['r'])]
+                if o['k'] == 'var' and o.get('vk') == 'param' and k_['k'] == 'var' and k_.get('decl') == tbl[0]:
+                    return cur_key[0], o['pidx']
         return None
 
     helper_kind = {}
@@ -460,6 +511,8 @@ def r_cmp(prog, run):
         relmap = dict(zip(KEYS, rel))
 
         def custom(g, nid, st):
+            if tbl and isinstance(st, tuple) and len(st) > 1 and st[0] == 'run' and g.id == cmpf.id:
+                cur_key[0] = tbl[1][st[1] - 1] if 0 < st[1] <= len(tbl[1]) else None
             at = atom(g, nid)
             if at is None:
                 return None
@@ -476,8 +529,16 @@ def r_cmp(prog, run):
             n = g.nodes[nid]
             if n['k'] == 'ret':
                 return ('ret', ev.ev(n['e'], st))
+            if tbl and n['k'] == 'decl' and st and st[0] == 'run' and any(d_.get('var') == tbl[0] for d_ in n['decls']):
+                return ('run', st[1] + 1)          # next entry of the accessor table
             return None
-        exits, info = cfgx.explore(cmpf, ('run',), transfer, lambda g, c, st: ev.ev(c, st))
+
+        def edge_filter(g, bid, edge, st):
+            t_ = g.blocks[bid].get('term')
+            if tbl and t_ and t_.get('k') == 'rangefor' and t_.get('loopvar') == tbl[0] and st and st[0] == 'run':
+                return edge == (0 if st[1] < len(tbl[1]) else 1)
+            return True
+        exits, info = cfgx.explore(cmpf, ('run', 0) if tbl else ('run',), transfer, lambda g, c, st: ev.ev(c, st), edge_filter=edge_filter)
         run.paths += len(exits)
         expected = next((r < 0 for r in rel if r != 0), False)
         run.instance(rid)
@@ -512,6 +573,35 @@ def r_cmp(prog, run):
         run.violation(rid, 'identityLessThan#collation', cmpf.loc(), 'identity keys are compared in %s order; XEP-0115 requires i;octet (UTF-8 byte order), which differs for '
                                                                       'characters outside the BMP' % '/'.join(sorted(kinds_used)))
     _identity_string(prog, run, rid, f)
+
+
+def _accessor_table(f):
+    """(loop variable decl, [accessor names]) if the function iterates a constant array of pointers to Identity accessors"""
+    for b in f.blocks.values():
+        t = b.get('term')
+        if not t or t.get('k') != 'rangefor' or 'range' not in t:
+            continue
+        r = f.nodes[f.skip(t['range'])]
+        if r['k'] != 'var':
+            continue
+        d = f.defs().get(r['decl']) or {}
+        init = f.nodes[f.skip(d['init'])] if d.get('init') is not None else None
+        if init is None or init['k'] != 'initlist':
+            continue
+        names = []
+        for e in init.get('elems', []):
+            m = f.nodes[f.skip(e)]
+            while m['k'] == 'un' and m.get('op') == '&':
+                m = f.nodes[f.skip(m['e'])]
+            q = f.cname(m) if m['k'] in ('fnref', 'methref') else ''
+            if q.startswith(IDENT):
+                names.append(q[len(IDENT):])
+            else:
+                names = None
+                break
+        if names:
+            return t['loopvar'], names
+    return None
 
 
 def _joins_keys(prog, cmpf, depth=0):
@@ -618,7 +708,7 @@ def _piece_exits(prog, g, sd, scope, entry, hash_call, bad_sites, depth=0):
     def transfer(gg, nid, st):
         if st == 'BAD':
             return None
-        if nid in apps:
+        if nid in apps and nid not in helper_calls:
             parts = _flatten(gg, apps[nid])
             term = _is_char(gg, parts[-1], 60, '<')
             # an open piece may only be continued by a separator ("<" ends it, "/" joins the next identity key)
